@@ -215,9 +215,9 @@ func genStockQR(g *vlib.G) {
 		// quick: B32 u B64, plus a few shapes beyond the crossover 128 so that the stock blocked QR runs at all
 		shapes = append(shapes, [2]int{129, 129}, [2]int{130, 65}, [2]int{65, 130}, [2]int{161, 129})
 	}
-	fams := pickFams(generalFams(200, false), "dd", "had", "rowgraded", "zerocol100")
+	fams := pickFams(generalFams(200, false), "dd", "had", "rowgraded", "zerocol100", "sparse")
 	if !g.Thorough() {
-		fams = pickFams(generalFams(66, false), "dd", "had")
+		fams = pickFams(generalFams(66, false), "dd", "had", "sparse")
 	}
 	kinds := []fkind{kindQR, kindLQ}
 	if g.Thorough() {
@@ -238,6 +238,11 @@ func genStockQR(g *vlib.G) {
 					unit := kd.unit(m, n)
 					ref := runFactor(ck, kd, kd.unbName, a, ldmin, -1)
 					factorOracle(ck, kd, kd.unbName, a, ref)
+					// sparse inputs give Householder vectors with trailing zeros: the known Dlarft defect applies
+					risky := kd.forward && larftRisk(kd.refl(ref.out, ref.tau))
+					if risky {
+						ck.class = larftClass
+					}
 					query := workQuery(ck, kd.name, unit, k == 0, func(work []float64) {
 						kd.blocked(m, n, place(a, ldmin, nil).d, ldmin, poisonVec(k), work, -1)
 					})
